@@ -1,7 +1,8 @@
 SPECIFICATION Spec
 CONSTANTS
   MaxSigs = 4
-  Tools = {"none", "key", "eth", "manual_ok", "manual_bad", "manual_spell"}
+  MaxSteps = 3
+  Tools = {"none", "key", "eth", "manual_ok", "manual_bad", "manual_spell", "message"}
 INVARIANT RefusesMalformed
 INVARIANT AcceptsWellFormed
 INVARIANT MessageText
@@ -11,6 +12,7 @@ INVARIANT SignatureVerifies
 INVARIANT RoundTripP
 INVARIANT ExchangeShape
 INVARIANT AuthorizedIff
+INVARIANT FileNamesItsVersion
 INVARIANT DocumentedFailure
 INVARIANT AuthorizedIffK
 INVARIANT Holds
